@@ -15,7 +15,7 @@ import (
 // must have been built for this very series (never shared with another one).
 
 type fieldRule struct {
-	pkg, typ, field string
+	pkg, typ, field  string
 	readers, writers []string // canonical function names
 	why              string
 }
